@@ -1109,33 +1109,8 @@ def analyse(repo=None):
         if len(methods) != sum(1 for n in cls.body if isinstance(n, ast.FunctionDef)):
             fail(fn, "a method is defined twice")
         classes[cls.name] = (fn, methods)
-    # state outside the database: an instance attribute (other than the connection) that some method reads
-    for cname, (fn, methods) in classes.items():
-        connp = None
-        init = methods.get("__init__")
-        if init is not None and len(init.args.args) == 2:
-            connp = init.args.args[1].arg
-        stored, loaded = {}, {}
-        for mname, fdef in methods.items():
-            for n in ast.walk(fdef):
-                if isinstance(n, ast.Attribute) and isinstance(n.value, ast.Name) and n.value.id == "self":
-                    if isinstance(n.ctx, (ast.Store, ast.Del)):
-                        stored.setdefault(n.attr, []).append((mname, n.lineno))
-                    elif n.attr not in methods and mname != "__init__":
-                        loaded.setdefault(n.attr, set()).add(mname)
-            if mname == "__init__":
-                for st in fdef.body:      # the attribute(s) the connection parameter is kept in are not state
-                    if isinstance(st, ast.Assign) and isinstance(st.value, ast.Name) and st.value.id == connp:
-                        for t in st.targets:
-                            if isinstance(t, ast.Attribute):
-                                stored.pop(t.attr, None)
-                                loaded.pop(t.attr, None)
-                                stored["\0conn:" + t.attr] = []
-        conns = set(k[6:] for k in stored if k.startswith("\0conn:"))
-        for attr in sorted(a for a in stored if not a.startswith("\0conn:") and a not in conns and a in loaded):
-            m0, l0 = stored[attr][0]
-            fail("%s:%s" % (fn, cname), "state outside the database: instance attribute self.%s (assigned in %s line %d) "
-                 "is read by %s" % (attr, m0, l0, ", ".join(sorted(loaded[attr]))))
+    for f in state_outside_db(repo):
+        fail("%s:%s" % (f["file"], f["class"]), describe_state(f))
     # the facade: which methods are the store's API
     facade = translate_facade(repo, classes)
     api = set((v["class"], v["method"]) for v in facade["methods"].values())
@@ -1378,6 +1353,131 @@ def translate_facade(repo, classes):
     return {"methods": out, "attrs": attr_class}
 
 
+# ---------------------------------------------------------------- state outside the database (source check)
+MUTATORS = ("append", "add", "pop", "popitem", "update", "setdefault", "clear", "remove", "discard", "extend",
+            "insert", "appendleft", "popleft", "__setitem__", "__delitem__", "sort", "reverse")
+MEASURE_REPEAT_CAP = 1000      # largest recognised constant the measurement repeats calls for
+
+
+def _self_attr(n):
+    return isinstance(n, ast.Attribute) and isinstance(n.value, ast.Name) and n.value.id in ("self", "cls")
+
+
+def _int_consts(nodes):
+    out = set()
+    for st in nodes:
+        if isinstance(st, ast.Assign) and isinstance(st.value, ast.Constant) and type(st.value.value) is int:
+            out.add(st.value.value)
+    return out
+
+
+def state_outside_db(repo=None):
+    """Source check, independent of whether the interpreter understands the class otherwise.
+    An instance attribute of a store class (any class in the store files, mixins included), other than the
+    attribute(s) holding the connection, is STATE OUTSIDE THE DATABASE when it is written after construction --
+    assigned / augmented / deleted outside __init__, or (whatever __init__ put there) changed through a subscript
+    store / delete or a container-mutating method -- and read anywhere in the class (public methods, private
+    helpers, comparisons, arguments of calls, augmented assignments).  Attributes only set in __init__ and never
+    changed (configuration, a kept cursor) and write-only flags are not.
+    -> [{"class", "file", "attr", "written": [(method, line)], "read_by": [...], "steers": [(method, line, test
+    source)], "constants": [ints the class / module compares against]}]"""
+    repo = repo or REPO
+    findings = []
+    for fn in STORE_FILES:
+        path = os.path.join(repo, STORE_DIR, fn)
+        try:
+            tree = ast.parse(open(path).read(), path)
+        except Exception:
+            continue
+        module_consts = _int_consts(tree.body)
+        for cls in [n for n in ast.walk(tree) if isinstance(n, ast.ClassDef)]:
+            methods = {n.name: n for n in cls.body if isinstance(n, ast.FunctionDef)}
+            conn_attrs = set()
+            init = methods.get("__init__")
+            if init is not None and len(init.args.args) >= 2:
+                params = set(a.arg for a in init.args.args[1:])
+                for st in ast.walk(init):
+                    if isinstance(st, ast.Assign) and isinstance(st.value, ast.Name) and st.value.id in params:
+                        conn_attrs |= set(t.attr for t in st.targets if _self_attr(t))
+            written, changed, read = {}, {}, {}
+            for mname, fdef in methods.items():
+                for n in ast.walk(fdef):
+                    if _self_attr(n) and n.attr not in methods and n.attr not in conn_attrs:
+                        if isinstance(n.ctx, (ast.Store, ast.Del)):
+                            written.setdefault(n.attr, []).append((mname, n.lineno))
+                            if mname != "__init__":
+                                changed.setdefault(n.attr, []).append((mname, n.lineno))
+                        else:
+                            read.setdefault(n.attr, set()).add(mname)
+                    if isinstance(n, ast.AugAssign) and _self_attr(n.target):       # x += 1 reads x as well
+                        read.setdefault(n.target.attr, set()).add(mname)
+                    if isinstance(n, ast.Subscript) and isinstance(n.ctx, (ast.Store, ast.Del)) and _self_attr(n.value):
+                        changed.setdefault(n.value.attr, []).append((mname, n.lineno))
+                    if isinstance(n, ast.Call) and isinstance(n.func, ast.Attribute) and n.func.attr in MUTATORS \
+                            and _self_attr(n.func.value):
+                        changed.setdefault(n.func.value.attr, []).append((mname, n.lineno))
+            consts = set(module_consts) | _int_consts(cls.body)
+            for fdef in methods.values():
+                for n in ast.walk(fdef):
+                    if isinstance(n, ast.Compare):
+                        for x in [n.left] + list(n.comparators):
+                            if isinstance(x, ast.Constant) and type(x.value) is int:
+                                consts.add(x.value)
+            for attr in sorted(a for a in changed if a in read and a not in conn_attrs and a not in methods):
+                steers = []
+                for mname, fdef in methods.items():
+                    tainted, grew = set(), True
+                    uses = lambda e: any((_self_attr(x) and x.attr == attr) or (isinstance(x, ast.Name) and x.id in tainted)
+                                         for x in ast.walk(e))
+                    while grew:                                   # locals computed from the attribute
+                        grew = False
+                        for st in ast.walk(fdef):
+                            if isinstance(st, ast.Assign) and uses(st.value):
+                                for t in st.targets:
+                                    for x in ast.walk(t):
+                                        if isinstance(x, ast.Name) and x.id not in tainted:
+                                            tainted.add(x.id)
+                                            grew = True
+                    for st in ast.walk(fdef):
+                        if isinstance(st, (ast.If, ast.While, ast.IfExp, ast.Assert)) and uses(st.test):
+                            steers.append((mname, st.lineno, ast.unparse(st.test)[:80]))
+                findings.append({"class": cls.name, "file": fn, "attr": attr,
+                                 "written": sorted(set(written.get(attr, []) + changed[attr]), key=lambda x: x[1]),
+                                 "read_by": sorted(read[attr]), "steers": steers,
+                                 "constants": sorted(k for k in consts if k >= 2)})
+    return findings
+
+
+def recognised_constants(repo=None):
+    """integer constants (>= 2) the store modules define at module / class level or compare against"""
+    repo = repo or REPO
+    out = set()
+    for fn in STORE_FILES:
+        try:
+            tree = ast.parse(open(os.path.join(repo, STORE_DIR, fn)).read())
+        except Exception:
+            continue
+        out |= _int_consts(tree.body)
+        for cls in [n for n in ast.walk(tree) if isinstance(n, ast.ClassDef)]:
+            out |= _int_consts(cls.body)
+            for n in ast.walk(cls):
+                if isinstance(n, ast.Compare):
+                    for x in [n.left] + list(n.comparators):
+                        if isinstance(x, ast.Constant) and type(x.value) is int:
+                            out.add(x.value)
+    return sorted(k for k in out if k >= 2)
+
+
+def describe_state(f):
+    s = "state outside the database: instance attribute self.%s of %s (written in %s; read by %s)" % (
+        f["attr"], f["class"], ", ".join("%s line %d" % w for w in f["written"][:4]), ", ".join(f["read_by"]))
+    if f["steers"]:
+        s += "; it steers " + "; ".join("`%s` in %s line %d" % (t, m, l) for m, l, t in f["steers"][:3])
+    if f["constants"]:
+        s += "; integer constants the class compares against: %s" % ", ".join(map(str, f["constants"][:8]))
+    return s
+
+
 # ---------------------------------------------------------------- the MEASURED path
 class Inconclusive(Unrecognised):
     """the measurement of a method says nothing (the sentinels made it raise something unrelated)"""
@@ -1510,10 +1610,20 @@ def measured_method(pb, cname, mname, m):
     notes = []
     parsed = []
     for r in m["runs"]:
-        items, ending, nts = _run_items(pb, r, where, m["loop"])
+        try:
+            items, ending, nts = _run_items(pb, r, where, m["loop"])
+        except Inconclusive:
+            raise
+        except Unrecognised as e:
+            if r["variant"] == "R":
+                fail(where, "state outside the database: after %d identical calls on the same object the call does "
+                            "something the first call does not (%s); instance attribute(s) changed by those calls: %s"
+                     % (r.get("n") or 1, str(e).split(": ", 1)[-1][:200],
+                        ", ".join("self." + a for a in (r.get("state_changed") or [])) or "none seen"))
+            raise
         parsed.append((r, _norm_items(_strip(items)), ending))
         notes += nts
-    label = lambda r: "%s%s" % (r["variant"], "" if r["k"] is None else "/%d elements" % r["k"])
+    label = lambda r: "%s%s%s" % (r["variant"], "x%d" % r["n"] if r.get("n") else "", "" if r["k"] is None else "/%d elements" % r["k"])
     if all(not it for _, it, _ in parsed):
         return [], [], None, notes             # never writes, whatever it raises
     if m["loop"] is None:
@@ -1534,9 +1644,9 @@ def measured_method(pb, cname, mname, m):
                 if ending.startswith("other:") and it == full[:len(it)]:
                     raise Inconclusive("%s: raised %s in variant %s" % (where, ending[6:], label(r)))
                 if r["variant"] == "R":
-                    fail(where, "state outside the database: the same call repeated on the same object gives %s, the "
-                                "first call %s; instance attribute(s) changed by the first call: %s"
-                         % (_show(it), _show(full), ", ".join("self." + a for a in (r.get("state_changed") or [])) or "none seen"))
+                    fail(where, "state outside the database: the same call after %d identical calls on the same object "
+                                "gives %s, the first call %s; instance attribute(s) changed by those calls: %s"
+                         % (r.get("n") or 1, _show(it), _show(full), ", ".join("self." + a for a in (r.get("state_changed") or [])) or "none seen"))
                 fail(where, "behaviour depends on the stored state beyond what the model language expresses: "
                             "variant A %s, variant %s %s" % (_show(full), label(r), _show(it)))
         prog = [("commit",) if i[0] == "commit" else ("s", i[1]) for i in full]
@@ -1553,9 +1663,9 @@ def measured_method(pb, cname, mname, m):
             fail(where, "variant %s does not end normally (%s)" % (label(r), ending))
         want = one[:pos[0]] + [("s", one[pos[0]][1], i) for i in range(r["k"])] + one[pos[0] + 1:]
         if it != _norm_items(want) and r["variant"] == "R":
-            fail(where, "state outside the database: the same call repeated on the same object gives %s, the first "
-                        "call %s; instance attribute(s) changed by the first call: %s"
-                 % (_show(it), _show(_norm_items(want)), ", ".join("self." + a for a in (r.get("state_changed") or [])) or "none seen"))
+            fail(where, "state outside the database: the same call after %d identical calls on the same object gives "
+                        "%s, the first call %s; instance attribute(s) changed by those calls: %s"
+                 % (r.get("n") or 1, _show(it), _show(_norm_items(want)), ", ".join("self." + a for a in (r.get("state_changed") or [])) or "none seen"))
         if it != _norm_items(want):
             fail(where, "statement sequence is not 'one write per element, the rest outside the loop': variant %s "
                         "gives %s, expected %s" % (label(r), _show(it), _show(_norm_items(want))))
@@ -1819,16 +1929,24 @@ def extract(repo=None, scratch=None):
     ex = {"path": None, "syntactic_error": None, "measure_error": None, "measured_error": None, "compared": 0,
           "agree": 0, "inconclusive": [], "disagreements": []}
     syn = obs = None
+    state = state_outside_db(repo)
+    ex["state_outside_db"] = [describe_state(f) for f in state]
+    consts = recognised_constants(repo)
+    repeat = sorted(set([1, 2] + [n for k in consts if k <= MEASURE_REPEAT_CAP for n in (k - 1, k)]))
+    ex["repeat_counts"] = repeat
     try:
         syn = analyse(repo)
     except Unrecognised as e:
         ex["syntactic_error"] = str(e)
+    if state:
+        syn = None
+        ex["syntactic_error"] = "; ".join(ex["state_outside_db"])
     own = None
     if scratch is None:
         import tempfile
         own = scratch = tempfile.mkdtemp(prefix="c13-measure-")
     try:
-        obs = tc.measure(repo, scratch)
+        obs = tc.measure(repo, scratch, repeat=repeat)
     except tc.MeasureError as e:
         ex["measure_error"] = str(e)
     finally:
@@ -1850,6 +1968,11 @@ def extract(repo=None, scratch=None):
         else:
             try:
                 model = build_measured(obs, ex["syntactic_error"])
+                if state:
+                    # the source keeps state outside the database: whatever the (finitely many) measured variants
+                    # show, the programs are not a function of the database alone
+                    raise Unrecognised("not used: the class keeps state outside the database; the measured variants "
+                                       "(same call repeated %s times on one object) show no difference" % repeat)
                 text, meta = emit(model)
                 ex["path"] = "measured only (source shape not recognised: %s)" % ex["syntactic_error"][:300]
             except Unrecognised as e:
@@ -1859,6 +1982,7 @@ def extract(repo=None, scratch=None):
             ex["path"] = "none (%s)" % err[:600]
             u = Unrecognised(err)
             u.extraction = ex
+            u.state = state
             u.layout = None
             if obs is not None:
                 try:
